@@ -76,6 +76,9 @@ def check(ctx):
     ok = "(name_cum, i - 1)" in u and "(self.cum_last._name, i - 1)" in u and "for i in range(1, self.frame.npartitions)" in u and "dsk = {(self._name, 0): (self.cum_raw._name, 0)}" in u
     ctx.ob("ALG.scan-carry", fin, "partition i is merged with the running total of partitions 0..i-1", ok)
     T.argpos(ctx, lambda p: p == GB, "c38", floor=10)
+    from ._claims import check_claims
+
+    check_claims(ctx)
 
 
 VARIANTS = [
